@@ -1083,6 +1083,30 @@ def out8(units, R):
 def _out8_pass(u, fam, famnames, leaves_dirty, R):
     from ..dataflow import solve
     n = 0
+    # family functions that read ->offset (directly or through another family function) without being the accounting itself
+    reads_offset = set()
+    changed = True
+    while changed:
+        changed = False
+        for f_ in fam:
+            if f_.name in reads_offset or f_.name in ('ensure', 'update_offset') or f_.body is None:
+                continue
+            lhs_ = set()
+            for x in f_.nodes():
+                if x.get('k') == 'bin' and x.get('op') in ASSIGN_OPS:
+                    lhs_.add(strip_casts(x['l']).get('id'))
+            direct = any(x.get('k') == 'mem' and x.get('f') == 'offset' and x.get('id') not in lhs_ for x in f_.nodes())
+            starts_clean = False
+            if direct:
+                # a function that accounts first (update_offset before any read) is not a reader of a stale offset
+                fc = f_.cfg()
+                upd = {fc.node_of_expr(c['id']).id for c in f_.calls() if callee_name(c) == 'update_offset' and fc.node_of_expr(c['id'])}
+                rd = [fc.node_of_expr(x['id']) for x in f_.nodes() if x.get('k') == 'mem' and x.get('f') == 'offset' and x.get('id') not in lhs_]
+                reach = fc.reachable(fc.entry.id, stop=upd)
+                starts_clean = all(r_ is None or r_.id not in reach for r_ in rd)
+            if (direct and not starts_clean) or any(callee_name(c) in reads_offset for c in f_.calls()):
+                reads_offset.add(f_.name)
+                changed = True
     for fn in fam:
         calls = [c for c in fn.calls() if callee_name(c) == 'ensure' or callee_name(c) in famnames]
         if not calls or fn.name in ('ensure', 'update_offset'):
@@ -1116,10 +1140,27 @@ def _out8_pass(u, fam, famnames, leaves_dirty, R):
                 return False
             return any(x.get('k') == 'ref' and x.get('d') in derived for x in walk(acc[0]))
 
+        def offset_reads(node):
+            root = node.expr if node.expr is not None else (node.decl.get('init') if node.kind == 'decl' and node.decl else None)
+            if root is None:
+                return []
+            lhs = set()
+            for x in walk(root):
+                if x.get('k') == 'bin' and x.get('op') in ASSIGN_OPS:
+                    lhs.add(strip_casts(x['l']).get('id'))
+                elif x.get('k') == 'un' and x.get('op') in ('pre++', 'pre--', 'post++', 'post--'):
+                    lhs.add(strip_casts(x['e']).get('id'))
+            return [x for x in walk(root) if x.get('k') == 'mem' and x.get('f') == 'offset' and x.get('id') not in lhs]
+
         def transfer(node, dirty, record=None):
+            if record is not None and dirty == 'callee':
+                for x in offset_reads(node):
+                    record.append((x, 'read'))
             for ev in node_effects(node):
                 if ev.kind == 'call':
                     cn = callee_name(ev.node)
+                    if record is not None and dirty == 'callee' and cn in reads_offset and cn not in ('ensure', 'update_offset'):
+                        record.append((ev.node, 'read'))
                     if cn == 'ensure':
                         if record is not None:
                             record.append((ev.node, dirty))
@@ -1130,21 +1171,22 @@ def _out8_pass(u, fam, famnames, leaves_dirty, R):
                         # a printer called here makes its own requests
                         if record is not None and leaves_dirty.get('requests:' + cn):
                             record.append((ev.node, dirty))
-                        dirty = bool(leaves_dirty.get(cn))
+                        dirty = 'callee' if leaves_dirty.get(cn) else False       # (the callee's last token, at a place only it knows)
                     elif cn in ('sprintf', 'strcpy', 'memcpy', 'strcat') and ev.node['args'] and any(
                             x.get('k') == 'ref' and x.get('d') in derived for x in walk(ev.node['args'][0])):
-                        dirty = True
+                        dirty = dirty or True
                 elif ev.kind == 'store':
                     if is_mem(ev.lhs, 'offset'):
                         dirty = False
                     elif through_grant(ev.lhs):
-                        dirty = True
+                        dirty = dirty or True
                 elif ev.kind == 'incdec' and is_mem(ev.lhs, 'offset'):
                     dirty = False
                 elif ev.kind == 'incdec' and through_grant(ev.lhs):
-                    dirty = True
+                    dirty = dirty or True
             return dirty
-        states = solve(cfg, False, lambda nd, st: transfer(nd, st), lambda nd, l, st: st, lambda a, b: a or b)
+        states = solve(cfg, False, lambda nd, st: transfer(nd, st), lambda nd, l, st: st,
+                       lambda a, b: 'callee' if 'callee' in (a, b) else (a or b))
         sites = []
         for nd in cfg.nodes:
             if nd.id in states:
@@ -1156,11 +1198,17 @@ def _out8_pass(u, fam, famnames, leaves_dirty, R):
             if r.expr is not None and (const_val(r.expr) == 0 or is_null_const(r.expr)):
                 continue
             if r.id in states:
-                succ_dirty = succ_dirty or transfer(r, states[r.id])
+                succ_dirty = succ_dirty or bool(transfer(r, states[r.id]))
         leaves_dirty[fn.name] = succ_dirty
         leaves_dirty['requests:' + fn.name] = any(
             callee_name(c) == 'ensure' or leaves_dirty.get('requests:' + (callee_name(c) or '')) for c in fn.calls())
         for (c, dirty) in sites:
+            if dirty == 'read':
+                if R is not None:
+                    R.ob('OUT8', fn, c, '->offset is read only when it covers everything written', False,
+                         '%s is evaluated after a printer returned with its last token not yet accounted (no update_offset in '
+                         'between): the text is taken to end where that token starts' % expr_str(c)[:50], key='stale-offset:%s' % expr_str(c)[:40])
+                continue
             n += 1
             if R is None:
                 continue
